@@ -108,6 +108,17 @@ CLAIMS = {
         'technique': 'TLA+ pipeline model checking (liveness) + TLC-enumerated parameter/fault cases replayed into the real reader router in a child process with goroutine census',
         'design_ref': '5/C12',
     },
+    'C15': {
+        'level': 'model_checking',
+        'text': 'JsonStream.tla transcribes the 7 hand-written streaming JSON writers (streams, tail, matrix, vector, label lists, tempo tags/search, trace) as comma/bracket automata over '
+                'channel batches, with the i==0 guards DERIVED FROM THE SOURCE; TLC checks well-formedness (stack automaton) and output = demanded document for all inputs <= 5 entries '
+                '(thorough 6) x all batch splits incl. empty batches x all fingerprint patterns incl. fingerprint 0. Every enumerated input is replayed into the real '
+                'QueryRange/QueryInstant/Tail (batches delivered through the planner plugin seam), label/series services, Tempo and Prometheus controllers; the strictly parsed body is '
+                'compared with the rows (exact timestamps, ParseFloat(text)==value bitwise, hostile strings) and its token string with the spec\'s.',
+        'note': 'full-stack seeded cases go through fakesql + the real getter batching; invalid UTF-8 passed through by jsoniter is counted, not judged; Tail websocket framing not covered.',
+        'technique': 'TLA+/TLC exhaustive enumeration with case export + replay into the real writers + token-string conformance',
+        'design_ref': '5/C15',
+    },
 }
 
 NOT_YET = 'check not built yet in this round (planned, see DESIGN.md section 5); not claimed until its machinery runs'
